@@ -161,9 +161,24 @@ pub struct RunRes {
     pub drop_tripped: bool,
 }
 
+thread_local! {
+    /// mount options of the scenario runs: bit 0 = strict(false), bit 1 = update_accessed_date(true)
+    static OPTS: std::cell::Cell<u8> = const { std::cell::Cell::new(0) };
+}
+
+fn opts_name(o: u8) -> &'static str {
+    match o & 3 {
+        0 => "default",
+        1 => "nonstrict",
+        2 => "atime",
+        _ => "nonstrict+atime",
+    }
+}
+
 fn mk(dev: &MonDev, clock: &Clock) -> Result<Fs, fatfs::Error<crate::dev::DevError>> {
     dev.set_pos(0);
-    fatfs::FileSystem::new(dev.handle(), fatfs::FsOptions::new().time_provider(clock.clone()))
+    let o = OPTS.with(|c| c.get());
+    fatfs::FileSystem::new(dev.handle(), fatfs::FsOptions::new().time_provider(clock.clone()).strict(o & 1 == 0).update_accessed_date(o & 2 != 0))
 }
 
 /// run the scenario from `img`; `fault`: (k, kinds mask)
@@ -382,85 +397,107 @@ pub fn run(args: &Args, rep: &mut Report) {
             if job % nshards != shard {
                 continue;
             }
-            // fault-free run: number of device calls of the target
-            let clean = run_scenario(&img, &sc, vc, None, 50_000_000);
-            if clean.panic.is_some() || clean.ek != EK::Ok && !matches!(clean.ek, EK::NotFound | EK::DirectoryIsNotEmpty) {
-                rep.inconclusive.push(format!("{} / {}: fault-free run failed: {:?} {:?}", vc.label(), sc.name, clean.ek, clean.panic));
-                continue;
-            }
-            let n = clean.calls;
-            rep.count(&format!("calls:{}:{}", vc.fat, sc.name), n);
-            let budget = (n * 20).max(n + 5000);
-            let kind_sets: Vec<u8> = if thorough { vec![0xF, 1, 2, 4, 8] } else { vec![0xF] };
-            for kinds in kind_sets {
-                let mut k = 1u64;
-                loop {
-                    if k > n + 2 {
-                        break;
+            // mount options: mount/unmount targets under every combination, the others under the default and one
+            // rotating alternative (all four in the thorough tier)
+            let whole = matches!(sc.target, Target::Mount | Target::Unmount | Target::DropFs | Target::Format);
+            let opt_sets: Vec<u8> = if matches!(sc.target, Target::Format) {
+                vec![0]
+            } else if whole || thorough {
+                vec![0, 1, 2, 3]
+            } else {
+                vec![0, 1 + ((job + seed) % 3) as u8]
+            };
+            let mut n_default = 0u64;
+            for opt in opt_sets {
+                OPTS.with(|c| c.set(opt));
+                // fault-free run: number of device calls of the target
+                let clean = run_scenario(&img, &sc, vc, None, 50_000_000);
+                if clean.panic.is_some() || clean.ek != EK::Ok && !matches!(clean.ek, EK::NotFound | EK::DirectoryIsNotEmpty) {
+                    rep.inconclusive.push(format!("{} / {}: fault-free run failed: {:?} {:?}", vc.label(), sc.name, clean.ek, clean.panic));
+                    continue;
+                }
+                let n = clean.calls;
+                if opt == 0 {
+                    n_default = n;
+                }
+                if opt == 0 {
+                        rep.count(&format!("calls:{}:{}", vc.fat, sc.name), n);
                     }
-                    let r = run_scenario(&img, &sc, vc, Some((k, kinds)), budget);
-                    let Some(fired) = r.fired.clone() else {
-                        // fewer matching calls than k: enumeration complete for this kind set
-                        if r.tripped || r.panic.is_some() {
-                            // cannot happen without a fault unless the budget is wrong
-                            rep.inconclusive.push(format!("{} / {}: k={} no fault fired but {:?}", vc.label(), sc.name, k, r.panic));
+                    rep.count(&format!("options:{}", opts_name(opt)), 1);
+                let budget = (n * 20).max(n + 5000);
+                let kind_sets: Vec<u8> = if thorough { vec![0xF, 1, 2, 4, 8] } else { vec![0xF] };
+                for kinds in kind_sets {
+                    let mut k = 1u64;
+                    loop {
+                        if k > n + 2 {
+                            break;
                         }
-                        break;
-                    };
-                    rep.evaluations += 1;
-                    let mut f = Fnv::new();
-                    f.str(&vc.class()).str(&sc.name).u64(k).u64(u64::from(kinds));
-                    rep.distinct.insert(f.get());
-                    let what = format!("{} on {}: fault at device call {} of {} ({} at offset {}, kinds mask {:#x})", sc.name, vc.label(), k, n, fired.kind.name(), fired.off, kinds);
-                    let rj = |detail: &str| {
-                        J::obj()
-                            .set("argv", J::arr_of_str(vec!["c09".to_string(), "--only-scenario".into(), sc.name.clone(), "--only-k".into(), k.to_string()]))
-                            .set("variant", J::s(crate::modes::sessmode::variant_name()))
-                            .set("scenario", J::s(sc.name.clone()))
-                            .set("volume", vc.json())
-                            .set("k", J::u(k))
-                            .set("kinds", J::u(u64::from(kinds)))
-                            .set("setup", crate::ops::ops_json(&sc.setup))
-                            .set("target", J::s(format!("{:?}", sc.target)))
-                            .set("detail", J::s(detail))
-                    };
-                    let where_ = format!("{}-{}", sc.name.split('(').next().unwrap_or(""), fired.kind.name());
-                    if let Some((cls, full)) = &r.panic {
-                        if r.tripped {
-                            let d = format!("{}: the call did not terminate within {} device calls (fault-free: {})", what, budget, n);
-                            rep.viol("C09", &format!("C09|hang|{}", where_), "hang", &d, rj(&d));
-                            rep.count("outcome:fault:HANG", 1);
+                        let r = run_scenario(&img, &sc, vc, Some((k, kinds)), budget);
+                        let Some(fired) = r.fired.clone() else {
+                            // fewer matching calls than k: enumeration complete for this kind set
+                            if r.tripped || r.panic.is_some() {
+                                // cannot happen without a fault unless the budget is wrong
+                                rep.inconclusive.push(format!("{} / {}: k={} no fault fired but {:?}", vc.label(), sc.name, k, r.panic));
+                            }
+                            break;
+                        };
+                        rep.evaluations += 1;
+                        let mut f = Fnv::new();
+                        f.str(&vc.class()).str(&sc.name).u64(k).u64(u64::from(kinds)).u64(u64::from(opt));
+                        rep.distinct.insert(f.get());
+                        let what = format!("{} on {} mounted with {} options: fault at device call {} of {} ({} at offset {}, kinds mask {:#x})", sc.name, vc.label(), opts_name(opt), k, n, fired.kind.name(), fired.off, kinds);
+                        let rj = |detail: &str| {
+                            J::obj()
+                                .set("argv", J::arr_of_str(vec!["c09".to_string(), "--only-scenario".into(), sc.name.clone(), "--only-k".into(), k.to_string()]))
+                                .set("variant", J::s(crate::modes::sessmode::variant_name()))
+                                .set("scenario", J::s(sc.name.clone()))
+                                .set("volume", vc.json())
+                                .set("k", J::u(k))
+                                .set("kinds", J::u(u64::from(kinds)))
+                                .set("mount_options", J::s(opts_name(opt)))
+                                .set("setup", crate::ops::ops_json(&sc.setup))
+                                .set("target", J::s(format!("{:?}", sc.target)))
+                                .set("detail", J::s(detail))
+                        };
+                        let where_ = format!("{}-{}", sc.name.split('(').next().unwrap_or(""), fired.kind.name());
+                        if let Some((cls, full)) = &r.panic {
+                            if r.tripped {
+                                let d = format!("{}: the call did not terminate within {} device calls (fault-free: {})", what, budget, n);
+                                rep.viol("C09", &format!("C09|hang|{}", where_), "hang", &d, rj(&d));
+                                rep.count("outcome:fault:HANG", 1);
+                            } else {
+                                let d = format!("{}: the call panicked: {}", what, full);
+                                rep.viol("C09", &format!("C09|panic|{}|{}", where_, cls), "panic", &d, rj(&d));
+                                rep.count("outcome:fault:PANIC", 1);
+                            }
+                        } else if fired.in_drop {
+                            rep.count("outcome:fault:exempt-destructor", 1);
+                        } else if r.ek == EK::Io && r.io_code == Some(0xF000 + (k as u32 & 0xFFF)) {
+                            rep.count("outcome:fault:Io(surfaced)", 1);
+                        } else if r.ek == EK::Ok {
+                            let d = format!("{}: the public call returned Ok - the storage error was swallowed", what);
+                            rep.viol("C09", &format!("C09|swallowed|{}", where_), "swallowed", &d, rj(&d));
+                            rep.count("outcome:fault:SWALLOWED", 1);
                         } else {
-                            let d = format!("{}: the call panicked: {}", what, full);
-                            rep.viol("C09", &format!("C09|panic|{}|{}", where_, cls), "panic", &d, rj(&d));
-                            rep.count("outcome:fault:PANIC", 1);
+                            let d = format!("{}: the public call returned {} (io code {:?}) instead of the storage's error", what, r.ek.name(), r.io_code);
+                            rep.viol("C09", &format!("C09|masked|{}|{}", where_, r.ek.name()), "masked", &d, rj(&d));
+                            rep.count("outcome:fault:MASKED", 1);
                         }
-                    } else if fired.in_drop {
-                        rep.count("outcome:fault:exempt-destructor", 1);
-                    } else if r.ek == EK::Io && r.io_code == Some(0xF000 + (k as u32 & 0xFFF)) {
-                        rep.count("outcome:fault:Io(surfaced)", 1);
-                    } else if r.ek == EK::Ok {
-                        let d = format!("{}: the public call returned Ok - the storage error was swallowed", what);
-                        rep.viol("C09", &format!("C09|swallowed|{}", where_), "swallowed", &d, rj(&d));
-                        rep.count("outcome:fault:SWALLOWED", 1);
-                    } else {
-                        let d = format!("{}: the public call returned {} (io code {:?}) instead of the storage's error", what, r.ek.name(), r.io_code);
-                        rep.viol("C09", &format!("C09|masked|{}|{}", where_, r.ek.name()), "masked", &d, rj(&d));
-                        rep.count("outcome:fault:MASKED", 1);
+                        if let Some((cls, full)) = &r.drop_panic {
+                            let d = format!("{}: destructors after the failed call panicked: {}", what, full);
+                            rep.viol("C09", &format!("C09|drop-panic|{}", cls), "drop-panic", &d, rj(&d));
+                        }
+                        if r.drop_tripped {
+                            let d = format!("{}: destructors after the failed call did not terminate within the budget", what);
+                            rep.viol("C09", &format!("C09|drop-hang|{}", where_), "drop-hang", &d, rj(&d));
+                        }
+                        k += 1;
                     }
-                    if let Some((cls, full)) = &r.drop_panic {
-                        let d = format!("{}: destructors after the failed call panicked: {}", what, full);
-                        rep.viol("C09", &format!("C09|drop-panic|{}", cls), "drop-panic", &d, rj(&d));
-                    }
-                    if r.drop_tripped {
-                        let d = format!("{}: destructors after the failed call did not terminate within the budget", what);
-                        rep.viol("C09", &format!("C09|drop-hang|{}", where_), "drop-hang", &d, rj(&d));
-                    }
-                    k += 1;
                 }
             }
+            OPTS.with(|c| c.set(0));
             if rep.samples.len() < 5 {
-                rep.sample(J::obj().set("scenario", J::s(sc.name.clone())).set("volume", vc.json()).set("device_calls", J::u(n)).set("target", J::s(format!("{:?}", sc.target))));
+                rep.sample(J::obj().set("scenario", J::s(sc.name.clone())).set("volume", vc.json()).set("device_calls", J::u(n_default)).set("target", J::s(format!("{:?}", sc.target))));
             }
         }
     }
@@ -479,6 +516,8 @@ pub fn run(args: &Args, rep: &mut Report) {
         let mut scfg = crate::sess::SessCfg::all(crate::modes::sessmode::unicode_build());
         scfg.props = ["C01", "C09"].into_iter().collect();
         scfg.lib_walk = false;
+        scfg.opt_order = r.below(12) as u8;
+        scfg.update_accessed = r.chance(1, 3);
         let at = r.usize_below(35);
         let kk = 1 + match r.below(3) {
             0 => r.below(6),
